@@ -118,3 +118,125 @@ def run_eval(e, kw):
         ctx._params = ctx
         return ('ROkVal', to_val(e(ctx) if callable(e) else e))
     return guarded(f)
+
+
+# ---- hex helpers and container operation sequences (C20) ----
+
+def run_hexdump(data, linesize):
+    def f():
+        from construct.lib import hexdump
+        return ('ROkBytes', hexdump(data, linesize).encode('latin1'))
+    r = guarded(f)
+    return r if r[0] != 'RErr' else ('RErr', ('EValue',), None)
+
+
+def run_hexundump(text, linesize):
+    def f():
+        from construct.lib import hexundump
+        return ('ROkBytes', hexundump(text.decode('latin1'), linesize))
+    r = guarded(f)
+    return r if r[0] != 'RErr' else ('RErr', ('EValue',), None)
+
+
+def to_container(v):
+    if isinstance(v, dict):
+        return construct.Container((k, to_container(x)) for k, x in v.items())
+    if isinstance(v, list):
+        return construct.ListContainer(to_container(x) for x in v)
+    return v
+
+
+def step_term(s):
+    return ('SKey', name_bytes(s)) if isinstance(s, str) else ('SIdx', s)
+
+
+def cop_term(o):
+    k = o[0]
+    from reify import const_val
+    if k == 'new':
+        return ('CNew', const_val(o[1]))
+    if k in ('copy', 'deepcopy', 'pickle'):
+        return ({'copy': 'CCopy', 'deepcopy': 'CDeepcopy', 'pickle': 'CPickle'}[k], o[1])
+    if k == 'set':
+        return ('CSet', o[1], [step_term(x) for x in o[2]], name_bytes(o[3]), const_val(o[4]))
+    if k == 'del':
+        return ('CDel', o[1], [step_term(x) for x in o[2]], name_bytes(o[3]))
+    if k == 'append':
+        return ('CAppend', o[1], [step_term(x) for x in o[2]], const_val(o[3]))
+    if k == 'observe':
+        return ('CObserve', o[1])
+    if k == 'attr':
+        return ('CAttr', o[1], [step_term(x) for x in o[2]], name_bytes(o[3]))
+    if k == 'eq':
+        return ('CEq', o[1], o[2])
+    raise Unsupported('cop ' + k)
+
+
+def full_val(v):
+    """like to_val but keeping every key (the observation is the whole object)"""
+    if isinstance(v, dict):
+        return ('VDict', [(name_bytes(k), full_val(x)) for k, x in dict.items(v)])
+    if isinstance(v, list):
+        return ('VList', [full_val(x) for x in v])
+    return to_val(v)
+
+
+def run_cops(ops):
+    import copy, pickle
+    hs, out = [], []
+
+    def follow(i, path):
+        o = hs[i]
+        for s in path:
+            if isinstance(s, str):
+                if not isinstance(o, dict):
+                    raise KeyError(s)
+                o = dict.__getitem__(o, s)
+            else:
+                if not isinstance(o, list):
+                    raise KeyError(s)
+                o = o[s]
+        return o
+    for o in ops:
+        k = o[0]
+        try:
+            if k == 'new':
+                hs.append(to_container(o[1]))
+            elif k == 'copy':
+                hs.append(copy.copy(hs[o[1]]))
+            elif k == 'deepcopy':
+                hs.append(copy.deepcopy(hs[o[1]]))
+            elif k == 'pickle':
+                hs.append(pickle.loads(pickle.dumps(hs[o[1]])))
+            elif k == 'set':
+                t = follow(o[1], o[2])
+                if not isinstance(t, dict):
+                    raise TypeError
+                t[o[3]] = to_container(o[4])
+            elif k == 'del':
+                t = follow(o[1], o[2])
+                if not isinstance(t, dict):
+                    raise TypeError
+                del t[o[3]]
+            elif k == 'append':
+                t = follow(o[1], o[2])
+                if not isinstance(t, list):
+                    raise TypeError
+                t.append(to_container(o[3]))
+            elif k == 'observe':
+                out.append(('OVal', full_val(hs[o[1]])))
+            elif k == 'attr':
+                t = follow(o[1], o[2])
+                if not isinstance(t, dict):
+                    raise AttributeError
+                r = getattr(t, o[3])
+                if callable(r) and not isinstance(r, (dict, list)):
+                    raise AttributeError
+                out.append(('OVal', full_val(r)))
+            elif k == 'eq':
+                out.append(('OBool', bool(hs[o[1]] == hs[o[2]])))
+        except Unsupported:
+            raise
+        except Exception:
+            out.append(('OFail',))
+    return ('ROuts', out)
